@@ -63,6 +63,11 @@ def main():
             b = bytes.fromhex(v["s"])
             keep.append(b)
             return [C.c_char_p(b)]
+        if ct == "arr_int":
+            buf = (C.c_int * len(v["arr"]))(*v["arr"])
+            keep.append(buf)
+            ctx["bufs"].append(buf)
+            return [buf]
         if ct == "c_void_p":
             return [C.c_void_p(objptr(v, ctx))]
         if ct in ("c_float", "c_double"):
@@ -95,6 +100,8 @@ def main():
             return "c_char_p" if t[0] == "char" else "c_void_p"
         if k == "void":
             return None
+        if k == "array" and tuple(cat[1]) == ("int", "int", True):
+            return "arr_int"
         raise ValueError("no ctypes type for database category %r" % (cat,))
 
     def conv_py(v, cat, ctx, keep):
@@ -106,6 +113,9 @@ def main():
         if k in ("float", "double"):
             return fdec(v)
         ct = cat_ct(cat)
+        if ct == "arr_int":
+            buf = conv_ct(v, ct, ctx, keep)[0]
+            return C.addressof(buf)
         if ct == "c_char_p":
             s = bytes.fromhex(v["s"]).decode("utf-8")
             keep.append(s)
@@ -245,14 +255,14 @@ def run_spec(sp, backend, lib, mod, take, conv_ct, conv_py, cat_ct, norm_c, norm
         rct = cat_ct(sp["dbr"])
         wfn.restype = getattr(C, rct) if rct else None
         pcts = [cat_ct(c) for c in sp["dbp"]]
-        wfn.argtypes = [getattr(C, c) for c in pcts]
+        wfn.argtypes = [C.POINTER(C.c_int) if c == "arr_int" else getattr(C, c) for c in pcts]
     else:
         wfn = getattr(mod, sp["wname"])
     this = sp.get("this")
 
     def setup():
         lib.vf_reset()
-        ctx = {"A": [lib.vf_a(i) for i in range(3)], "this": []}
+        ctx = {"A": [lib.vf_a(i) for i in range(3)], "this": [], "bufs": []}
         if this:
             fac = getattr(lib, this["fac"])
             fac.restype = C.c_void_p
@@ -283,6 +293,7 @@ def run_spec(sp, backend, lib, mod, take, conv_ct, conv_py, cat_ct, norm_c, norm
         rows = []
         for st in sp["steps"]:
             prep(st, ctx)
+            ctx["bufs"] = []
             vals = full_args(st)
             this_ptr = ctx["this"][st["t"]] if st["t"] is not None else None
             if which == "o":
@@ -306,7 +317,7 @@ def run_spec(sp, backend, lib, mod, take, conv_ct, conv_py, cat_ct, norm_c, norm
             r = canon(r, sp["ret"], ctx, this_ptr)
             tr = take(lib.vf_trace_take)
             stt = take(lib.vf_state)
-            rows.append((r, tr, stt))
+            rows.append((r, tr, stt, [list(x) for x in ctx["bufs"]]))
         return rows
 
     w = side("w")
@@ -316,7 +327,7 @@ def run_spec(sp, backend, lib, mod, take, conv_ct, conv_py, cat_ct, norm_c, norm
     bodies = sp.get("body")
     distinct_r = set()
     ran = 0
-    for i, ((wr, wt, ws), (orr, ot, os_)) in enumerate(zip(w, o)):
+    for i, ((wr, wt, ws, wb), (orr, ot, os_, ob)) in enumerate(zip(w, o)):
         distinct_r.add(json.dumps([orr, ot, os_]))
         st = sp["steps"][i]
         what = None
@@ -326,6 +337,8 @@ def run_spec(sp, backend, lib, mod, take, conv_ct, conv_py, cat_ct, norm_c, norm
             what = "trace"
         elif ws != os_:
             what = "state"
+        elif wb != ob:
+            what = "argument-buffer"
         elif bodies:
             exp = bodies[st["t"]] if (len(bodies) > 1 and st["t"] is not None) else bodies[0]
             lines = [l for l in wt.split("\n") if l]
@@ -336,12 +349,14 @@ def run_spec(sp, backend, lib, mod, take, conv_ct, conv_py, cat_ct, norm_c, norm
         if what and diff is None:
             diff = {"call": i, "what": what, "step": st, "wrapper": {"ret": wr, "trace": wt[:400]},
                     "oracle": {"ret": orr, "trace": ot[:400]}}
+            if what == "argument-buffer":
+                diff["wrapper"]["buffers"], diff["oracle"]["buffers"] = wb, ob
             if what == "state":
                 wl, ol = ws.split("\n"), os_.split("\n")
                 dl = [(a, b) for a, b in zip(wl, ol) if a != b][:3]
                 diff["wrapper"]["state"] = [a[:300] for a, b in dl]
                 diff["oracle"]["state"] = [b[:300] for a, b in dl]
-    kinds = sorted(set(r[0] for r, _, _ in o))
+    kinds = sorted(set(row[0][0] for row in o))
     return {"ok": diff is None, "calls": ncalls, "diff": diff, "distinct_rows": len(distinct_r),
             "body_ran": ran, "rkind": "+".join(kinds)}
 
